@@ -34,7 +34,7 @@ import copy
 from vlib.ref import bits as RB
 
 PRIM_KINDS = ("bool", "nbits", "uint_lit", "bitarray", "bytes", "uint", "sint")
-EXTRA_KEYS = ("zz_extra", "zz_open", "zz_open2")
+EXTRA_KEYS = ("zz_extra", "zz_open", "zz_open2", "_zz_extra", "_", "__extra__", "0", "")
 
 
 # ------------------------------------------------------------------- generator
@@ -47,9 +47,19 @@ class _Gen(object):
         self.n = 0
         self.types = {}
 
-    def fresh(self, prefix="t"):
+    def fresh(self, prefix="t", used=None):
+        """A target name.  Names are unique within one context; one in five comes from a small pool shared by all
+        contexts, so that a parent and its sub-descriptions (or siblings) often use the SAME name for different targets."""
+        if used is not None and self.rng.random() < 0.2:
+            cand = "%sx%d" % (prefix, self.rng.randrange(3))
+            if cand not in used:
+                used.add(cand)
+                return cand
         self.n += 1
-        return "%s%d" % (prefix, self.n)
+        name = "%s%d" % (prefix, self.n)
+        if used is not None:
+            used.add(name)
+        return name
 
     # -- values
     def value(self, kind, arg):
@@ -83,10 +93,12 @@ class _Gen(object):
         return kind, None
 
     # -- frames
-    def frame(self, depth, inner=False):
+    def frame(self, depth, inner=False, used=None):
         """Ops and model of one context (inner=True: the inside of a bounded block:
         same context, restricted operations)."""
         r = self.rng
+        if used is None:
+            used = set()  # names taken in this context (a bounded block shares its parent's)
         ops = []
         model = {}
         deferred = []
@@ -97,12 +109,12 @@ class _Gen(object):
             self.budget -= 1
             c = r.random()
             if c < 0.36:
-                t = self.fresh()
+                t = self.fresh(used=used)
                 kind, arg = self.prim_shape(inner)
                 ops.append(["prim", kind, t, arg])
                 model[t] = self.value(kind, arg)
             elif c < 0.50:
-                t = self.fresh("l")
+                t = self.fresh("l", used)
                 kind, arg = self.prim_shape(inner)
                 ops.append(["declare_list", t])
                 k = r.randrange(0, self.max_list + 1)
@@ -117,7 +129,7 @@ class _Gen(object):
                     else:
                         ops.append(use)
             elif c < 0.54:
-                t = self.fresh("_cl")
+                t = self.fresh("_cl", used)
                 ops.append(["declare_list", t])
                 vals = [r.randrange(1000) for _ in range(r.randrange(0, 4))]
                 for v in vals:
@@ -125,18 +137,18 @@ class _Gen(object):
                 if r.random() < 0.3:
                     model[t] = [9999] * r.randrange(0, len(vals) + 1)  # stale input, overwritten
             elif c < 0.62:
-                t = self.fresh("_c")
+                t = self.fresh("_c", used)
                 v = r.choice([r.randrange(100000), "text%d" % r.randrange(100), -5])
                 ops.append(["computed", t, v])
                 if r.random() < 0.3:
                     model[t] = "stale"
             elif c < 0.76 and depth < self.max_depth and not inner:
-                t = self.fresh("s")
+                t = self.fresh("s", used)
                 sub_ops, sub_model = self.frame(depth + 1)
                 ops.append(["sub", t, sub_ops])
                 model[t] = sub_model
             elif c < 0.86 and depth < self.max_depth and not inner:
-                t = self.fresh("sl")
+                t = self.fresh("sl", used)
                 ops.append(["declare_list", t])
                 model[t] = []
                 for _ in range(r.randrange(0, 4)):
@@ -145,18 +157,18 @@ class _Gen(object):
                     model[t].append(sub_model)
                     if r.random() < 0.3 and self.budget > 0:
                         # something unrelated between two elements
-                        t2 = self.fresh()
+                        t2 = self.fresh(used=used)
                         ops.append(["prim", "bool", t2, None])
                         model[t2] = r.random() < 0.5
             elif c < 0.94 and not inner:
-                t = self.fresh("pad")
-                in_ops, in_model = self.frame(depth, inner=True)
+                t = self.fresh("pad", used)
+                in_ops, in_model = self.frame(depth, inner=True, used=used)
                 spec = {"dangling": True} if r.random() < 0.3 else {"extra": r.choice([0, 0, 1, 2, 5, 8, 13])}
                 ops.append(["block", t, spec, in_ops])
                 model.update(in_model)
                 model[t] = None  # filled by layout()
             elif not inner:
-                t = self.fresh("al")
+                t = self.fresh("al", used)
                 ops.append(["align", t])
                 model[t] = None  # filled by layout()
         ops.extend(deferred)
